@@ -159,6 +159,19 @@ fn drop_shared(sh: Arc<Item>) -> Result<(), Violation> {
     }
 }
 
+/// Overwrite an input text before it is released: a value that still points into its input
+/// (instead of into its own arena) then reads '@' bytes instead of happening to see the old text.
+fn scrub(mut text: String) {
+    unsafe { text.as_bytes_mut().fill(b'@') };
+    drop(text);
+}
+
+fn scrub_arc(src: Arc<String>) {
+    if let Ok(s) = Arc::try_unwrap(src) {
+        scrub(s);
+    }
+}
+
 struct Stream {
     stream: StreamDeserializer<'static, Value, Read<'static>>,
     _src: Arc<String>,
@@ -200,7 +213,7 @@ fn thread_body(t: usize, nthreads: usize, nops: u32, cfg: GenCfg, errs: Arc<Mute
                 // ---- parse by several routes
                 0 | 1 | 2 => {
                     let (j, text) = gen_doc(&cfg);
-                    let route = draw(8);
+                    let route = draw(10);
                     tr!("T{} parse route={} doc={}", t, route, oracle::truncate(&text));
                     let id = new_doc_id();
                     trace::bump(C::dom_parsed_roots);
@@ -208,7 +221,8 @@ fn thread_body(t: usize, nthreads: usize, nops: u32, cfg: GenCfg, errs: Arc<Mute
                         0 => libcall("from_str", || sonic_rs::from_str::<Value>(&text))?.map_err(|e| parse_err("from_str", &text, e))?,
                         1 => libcall("from_slice", || sonic_rs::from_slice::<Value>(text.as_bytes()))?.map_err(|e| parse_err("from_slice", &text, e))?,
                         2 => {
-                            let b = bytes::Bytes::from(text.clone());
+                            // (allocated in library scope: freeing it poisons it, so a value pointing into it is noticed)
+                            let b = crate::heap::lib(|| bytes::Bytes::from(text.clone()));
                             with_world(|w| w.live_desers += 1);
                             let r = libcall("Deserializer::from_json(Bytes)", || {
                                 let mut de = Deserializer::from_json(&b);
@@ -220,7 +234,7 @@ fn thread_body(t: usize, nthreads: usize, nops: u32, cfg: GenCfg, errs: Arc<Mute
                             r?.map_err(|e| parse_err("Deserializer(Bytes)", &text, e))?
                         }
                         3 => {
-                            let f = sonic_rs::FastStr::new(&text);
+                            let f = crate::heap::lib(|| sonic_rs::FastStr::new(&text));
                             with_world(|w| w.live_desers += 1);
                             let r = libcall("Deserializer::from_json(FastStr)", || {
                                 let mut de = Deserializer::from_json(&f);
@@ -231,7 +245,7 @@ fn thread_body(t: usize, nthreads: usize, nops: u32, cfg: GenCfg, errs: Arc<Mute
                         }
                         4 => {
                             // value embedded in a struct: the copying path, arena owned by the deserializer
-                            let wrapped = format!("{{\"v\":{}}}", text);
+                            let wrapped = crate::heap::lib(|| format!("{{\"v\":{}}}", text));
                             with_world(|w| w.live_desers += 1);
                             let r = libcall("from_str::<Wrapper>", || sonic_rs::from_str::<Wrapper>(&wrapped));
                             with_world(|w| w.live_desers -= 1);
@@ -243,11 +257,33 @@ fn thread_body(t: usize, nthreads: usize, nops: u32, cfg: GenCfg, errs: Arc<Mute
                             with_world(|w| w.live_desers -= 1);
                             r?.map_err(|e| parse_err("use_rawnumber", &text, e))?
                         }
+                        8 => {
+                            // raw numbers on the copying path: the value sits inside a struct
+                            let wrapped = format!("{{\"v\":{}}}", text);
+                            with_world(|w| w.live_desers += 1);
+                            let r = libcall("use_rawnumber + Wrapper", || Deserializer::from_str(&wrapped).use_rawnumber().deserialize::<Wrapper>());
+                            with_world(|w| w.live_desers -= 1);
+                            let v = r?.map_err(|e| parse_err("use_rawnumber + Wrapper", &wrapped, e))?.v;
+                            scrub(wrapped);
+                            v
+                        }
+                        9 => {
+                            // raw numbers, second element of a Vec<Value>
+                            let wrapped = format!("[1.50, {}]", text);
+                            with_world(|w| w.live_desers += 1);
+                            let r = libcall("use_rawnumber + Vec<Value>", || Deserializer::from_str(&wrapped).use_rawnumber().deserialize::<Vec<Value>>());
+                            with_world(|w| w.live_desers -= 1);
+                            let mut vs = r?.map_err(|e| parse_err("use_rawnumber + Vec<Value>", &wrapped, e))?;
+                            scrub(wrapped);
+                            let v = vs.pop().unwrap();
+                            libcall("drop vec", move || drop(vs))?;
+                            v
+                        }
                         7 => {
                             // one deserializer: a first value (dropped), this value, then a malformed
                             // document whose error must not disturb the value we keep
                             let bad = *pick(MALFORMED);
-                            let all = format!("[0] {} {}", text, bad);
+                            let all = crate::heap::lib(|| format!("[0] {} {}", text, bad));
                             with_world(|w| w.live_desers += 1);
                             let r = libcall("Deserializer: good, good, malformed", || {
                                 let mut de = Deserializer::from_str(&all);
@@ -267,7 +303,7 @@ fn thread_body(t: usize, nthreads: usize, nops: u32, cfg: GenCfg, errs: Arc<Mute
                         }
                         _ => {
                             // second element of a Vec<Value>
-                            let wrapped = format!("[0, {}]", text);
+                            let wrapped = crate::heap::lib(|| format!("[0, {}]", text));
                             with_world(|w| w.live_desers += 1);
                             let r = libcall("from_str::<Vec<Value>>", || sonic_rs::from_str::<Vec<Value>>(&wrapped));
                             with_world(|w| w.live_desers -= 1);
@@ -277,6 +313,8 @@ fn thread_body(t: usize, nthreads: usize, nops: u32, cfg: GenCfg, errs: Arc<Mute
                             v
                         }
                     };
+                    // the input text is gone (and overwritten) from here on: the value must not depend on it
+                    scrub(text);
                     bag.push(Item { v, m: j, origins: vec![id], big: false });
                 }
                 // ---- several values through one deserializer
@@ -289,6 +327,7 @@ fn thread_body(t: usize, nthreads: usize, nops: u32, cfg: GenCfg, errs: Arc<Mute
                     let r = libcall("from_str::<Three>", || sonic_rs::from_str::<Three>(&text));
                     with_world(|w| w.live_desers -= 1);
                     let three = r?.map_err(|e| parse_err("from_str::<Three>", &text, e))?;
+                    scrub(text);
                     trace::add(C::stream_values, 3);
                     let mut it = docs.into_iter();
                     bag.push(Item { v: three.a, m: it.next().unwrap().0, origins: vec![ids[0]], big: false });
@@ -316,7 +355,8 @@ fn thread_body(t: usize, nthreads: usize, nops: u32, cfg: GenCfg, errs: Arc<Mute
                         with_world(|w| w.live_desers += 1);
                         // SAFETY (harness): `src` is kept alive next to the stream
                         let s: &'static str = unsafe { std::mem::transmute::<&str, &'static str>(src.as_str()) };
-                        let stream = libcall("into_stream", || Deserializer::from_str(s).into_stream::<Value>())?;
+                        let raw = chance(1, 3);
+                        let stream = libcall("into_stream", || if raw { Deserializer::from_str(s).use_rawnumber().into_stream::<Value>() } else { Deserializer::from_str(s).into_stream::<Value>() })?;
                         streams.push(Stream { stream, _src: src, docs: models, next: 0, ended: false });
                     }
                 }
@@ -365,7 +405,9 @@ fn thread_body(t: usize, nthreads: usize, nops: u32, cfg: GenCfg, errs: Arc<Mute
                             trace::bump(C::deser_dropped_before_values);
                         }
                         tr!("T{} drop stream {}", t, k);
-                        libcall("drop stream", move || drop(s.stream))?;
+                        let Stream { stream, _src, .. } = s;
+                        libcall("drop stream", move || drop(stream))?;
+                        scrub_arc(_src);
                         with_world(|w| w.live_desers -= 1);
                     }
                 }
@@ -680,7 +722,9 @@ fn thread_body(t: usize, nthreads: usize, nops: u32, cfg: GenCfg, errs: Arc<Mute
             release(&origins);
             r
         } else if let Some(s) = st {
-            let r = libcall("drop stream at thread end", move || drop(s.stream));
+            let Stream { stream, _src, .. } = s;
+            let r = libcall("drop stream at thread end", move || drop(stream));
+            scrub_arc(_src);
             with_world(|w| w.live_desers -= 1);
             r
         } else {
